@@ -21,6 +21,7 @@ from typing import (
     Any,
     Dict,
     Generator,
+    Iterator,
     List,
     Optional,
     OrderedDict,
@@ -377,8 +378,9 @@ class TimeTriggeredPlanValidator(engines.engine.Engine, mixins.PlanValidatorMixi
         assigned: Dict[FNode, Optional[ActionInstance]] = {}
         for effs, sim_eff, ai in effects:
             for eff in effs:
-                changes = self._apply_effect(state, se, ai, eff, updates, problem)
-                for f, v in changes.items():
+                # the instances of a forall effect are applied one at a time, so that
+                # each one sees the updates of the previous ones
+                for f, v in self._apply_effect(state, se, ai, eff, updates, problem):
                     if f in assigned or (f in updates and eff.is_assignment()):
                         if not (
                             eff.is_assignment() and f in assigned and assigned[f] == ai
@@ -425,9 +427,8 @@ class TimeTriggeredPlanValidator(engines.engine.Engine, mixins.PlanValidatorMixi
         effect: Effect,
         updates: Dict[FNode, FNode],
         problem: Problem,
-    ) -> Dict[FNode, FNode]:
+    ) -> Iterator[Tuple[FNode, FNode]]:
         em = problem.environment.expression_manager
-        result = {}
         for instantiated_effect in effect.expand_effect(problem):
             if self._check_condition(
                 state, se, self._ground_expression(instantiated_effect.condition, ai)
@@ -442,7 +443,7 @@ class TimeTriggeredPlanValidator(engines.engine.Engine, mixins.PlanValidatorMixi
                     )
                 g_value = self._ground_expression(instantiated_effect.value, ai)
                 if instantiated_effect.kind == EffectKind.ASSIGN:
-                    result[g_fluent] = se.evaluate(g_value, state=state)
+                    yield g_fluent, se.evaluate(g_value, state=state)
                 else:
                     f_value = (
                         updates[g_fluent]
@@ -450,14 +451,15 @@ class TimeTriggeredPlanValidator(engines.engine.Engine, mixins.PlanValidatorMixi
                         else state.get_value(g_fluent)
                     )
                     if instantiated_effect.kind == EffectKind.DECREASE:
-                        result[g_fluent] = se.evaluate(
-                            em.Minus(f_value, g_value), state=state
+                        yield (
+                            g_fluent,
+                            se.evaluate(em.Minus(f_value, g_value), state=state),
                         )
                     elif instantiated_effect.kind == EffectKind.INCREASE:
-                        result[g_fluent] = se.evaluate(
-                            em.Plus(f_value, g_value), state=state
+                        yield (
+                            g_fluent,
+                            se.evaluate(em.Plus(f_value, g_value), state=state),
                         )
-        return result
 
     def _states_in_interval(
         self,
